@@ -10,7 +10,7 @@ PROP = "C07"
 HOSTS = ["a.com", "www.a.com", "WWW.A.COM", "m.a.com", "amp.a.com", "amp-a.com", "fr.a.com", "fr-FR.facebook.com", "en.m.wikipedia.org",
          "b.a.co.uk", "FR.B.A.CO.UK", "xn--tlrama-bvab.fr", "télérama.fr", "amp-xn--tlrama-bvab.fr", "a.notatld", "localhost", "1.2.3.4",
          "facebook.com", "www.facebook.co.uk", "fr.wikipedia.org", "be-fr.shop.example.org", "co.uk", "com", "mobile.a.com", "www2.a.com",
-         "a.com.", "xx.a.com", "www.fr.a.com"]
+         "a.com.", "xx.a.com", "www.fr.a.com", "co.uk.", "blogspot.com.", "www.gov.uk.", "fr.co.uk."]
 HWRAP = ["", "lead-space", "trail-nl", "ctrl", "upper", "ctrl-space", "space-ctrl"]
 OPTS = [("strip_suffix", [False, True]), ("normalize_amp", [True, False]), ("infer_redirection", [True, False]),
         ("suffix_aware", [False, True])]
@@ -27,7 +27,7 @@ def url_grid(tier):
 
 
 HOST_GRID = grid.Grid("hostnames", [("host", HOSTS), ("wrap", HWRAP)], free=OPTS[:2])
-REDIR_GRID = grid.Grid("redirects", c15.SLOTS, free=OPTS)
+REDIR_GRID = grid.Grid("redirects", c15.SLOTS + [("x_ctrl", ["", "after-sep", "in-key", "in-target-scheme", "in-cache-marker"])], free=OPTS)
 
 
 def host_of(result):
@@ -108,8 +108,22 @@ def evaluate_url(case):
     return fails, tags, u
 
 
+def ctrl_in_hint(u, where):
+    """a control character placed inside the redirection hint of the raw url"""
+    import re as _re
+    if where == "after-sep":
+        return _re.sub(r"([?&#])", lambda m: m.group(1) + "\n", u, count=1)
+    if where == "in-key":
+        return _re.sub(r"([?&#/@])([a-zA-Z_%;0-9]+)=", lambda m: m.group(1) + m.group(2)[:1] + "\t" + m.group(2)[1:] + "=", u, count=1)
+    if where == "in-target-scheme":
+        return _re.sub(r"=(ht)(tp)", lambda m: "=ht\ttp", u, count=1)
+    if where == "in-cache-marker":
+        return u.replace(".ampproject.org/c/", ".ampproject\x00.org/c/", 1).replace("marfeelcache.com/amp/", "marfeelcache.com/a\x00mp/", 1)
+    return u
+
+
 def evaluate_redirect(case):
-    u = c15.build(case)
+    u = ctrl_in_hint(c15.build(case), case.get("x_ctrl", ""))
     fails, tags = [], []
     check_url(u, case, fails, tags)
     return fails, tags, u
